@@ -33,6 +33,8 @@ type crashRun struct {
 	obs  *bufio.Writer
 	rng  *rand.Rand
 	tier string
+	// the signature store of every node after the batch in the run without a crash
+	refShape []string
 }
 
 func (r *crashRun) mon(s string) {
@@ -90,6 +92,8 @@ type crashOutcome struct {
 	effects int
 	trace   []string
 	ok      bool
+	// per node: how many entries the signature store holds for the batch signed at the end, with and without a signature
+	sigShape []string
 }
 
 // ceremony: key generation and one signing batch with node obsIdx crashing at the given effect numbers.
@@ -226,6 +230,7 @@ func (r *crashRun) ceremony(outDir string, n, t, obsIdx int, crashAt []int, repo
 			break
 		}
 	}
+	var sigShape []string
 	if ok {
 		// one signing batch, proposed by the restarted node
 		k.context = "ProposeSignMessages"
@@ -247,16 +252,30 @@ func (r *crashRun) ceremony(outDir string, n, t, obsIdx int, crashAt []int, repo
 			}
 			stor, err := nd.sigSvc.GetSignatures(&dto.DkgIdDTO{DkgID: round})
 			have := false
+			with, without, firstEmpty := 0, 0, false
 			if err == nil {
 				for _, mm := range stor {
 					for _, entries := range mm {
-						for _, e := range entries {
+						for ei, e := range entries {
 							if e.File == "after-crash" && len(e.Signature) > 0 {
 								have = true
+								with++
+							} else if e.File == "after-crash" {
+								without++
+								if ei == 0 {
+									firstEmpty = true
+								}
 							}
 						}
 					}
 				}
+			}
+			sigShape = append(sigShape, fmt.Sprintf("%d entries with a signature, %d without, the first one (what export_signatures writes out) %s", with, without, map[bool]string{true: "EMPTY", false: "signed"}[firstEmpty]))
+			// the same outcome as without the crash: every node's announcement of its reconstruction reached the board and was
+			// stored by everybody (a node that died between saving the round and posting its announcement never posts it)
+			if crashAt != nil && r.refShape != nil && i < len(r.refShape) && sigShape[i] != r.refShape[i] && ok {
+				r.mon(fmt.Sprintf("C13 ceremony_completes %s crash before durable effect %s: for the batch signed afterwards node %d stores %s; without the crash: %s", tag, hitf(), i, sigShape[i], r.refShape[i]))
+				ok = false
 			}
 			if !have {
 				r.mon(fmt.Sprintf("C13 ceremony_completes %s crash before durable effect %s: node %d holds no signature for the batch signed afterwards", tag, hitf(), i))
@@ -301,7 +320,7 @@ func (r *crashRun) ceremony(outDir string, n, t, obsIdx int, crashAt []int, repo
 			r.st.OutcomeHist[h[i+2:]+" -> "+res]++
 		}
 	}
-	return crashOutcome{effects: k.count, trace: k.trace, ok: ok}
+	return crashOutcome{effects: k.count, trace: k.trace, ok: ok, sigShape: sigShape}
 }
 
 func runCrashDiff(outDir string, seed int64, tier string) {
@@ -320,7 +339,9 @@ func runCrashDiff(outDir string, seed int64, tier string) {
 	}
 	for _, cf := range cfgs {
 		obsIdx := r.rng.Intn(cf.n)
+		r.refShape = nil
 		ref := r.ceremony(outDir, cf.n, cf.t, obsIdx, nil, true)
+		r.refShape = ref.sigShape
 		if !ref.ok {
 			r.mon(fmt.Sprintf("harness: the crash-free reference ceremony (n=%d,t=%d) did not complete", cf.n, cf.t))
 			continue
